@@ -12,7 +12,8 @@ LEVEL = "exploration"
 TEXTS = ["a", "b1", "a.b", "a/b", "a b", "a]b", "a[b", "a(b", "a)b", "a'b",
          'a"b', "a^b", "a$b", "a%b", "a\\b", "ab c.", "a ", " a", " ",
          # a literal * (only expressible demarcated) and a leading &
-         "a*b", "*", "**", "a*", "*a.b", "&a", "&"]
+         "a*b", "*", "**", "a*", "*a.b", "&a", "&", "a*[b", "a*'b)",
+         "a\\\\b"]
 OPERANDS = ["a", "b1", "a b", "a.b", "a/b", "a]b", "a'b", "a=b", "a!b",
             "a<b", "a~b", "a%b", "a\\b", "'a", 'a"', "a ", "it's \"x\""]
 S = "search"
